@@ -259,12 +259,12 @@ let print_result oc id (r : unit res) =
 (* ---------- conn mode ---------- *)
 type case = {
   mutable id : string; mutable lim : int; mutable tls : bool; mutable auth : n option; mutable dinit : bool;
-  mutable reads : rd list; mutable fault : wfault;
+  mutable reads : rd list; mutable fault : wfault; mutable mfault_set : bool;
   mutable qs : (qprog * n option) list; mutable ps : (pprog * n option) list;
   mutable xs : xscript list; mutable is : (iprog * n option) list;
   mutable pre : byte list; mutable plain : byte list;
 }
-let new_case id = { id; lim = 16777215; tls = false; auth = None; dinit = false; reads = []; fault = WNone;
+let new_case id = { id; lim = 16777215; tls = false; auth = None; dinit = false; reads = []; fault = WNone; mfault_set = false;
                     qs = []; ps = []; xs = []; is = []; pre = []; plain = [] }
 
 let run_case oc (c : case) =
@@ -337,7 +337,8 @@ let conn_mode ?(tlsmode=false) cases out =
              | _ -> fail_parse ("bad cfg " ^ kv)
            done
          | "reads" -> let l = ref [] in while peek t <> None do l := parse_rtok (pop t) :: !l done; c.reads <- List.rev !l
-         | "fault" -> c.fault <- parse_fault (pop t)
+         | "fault" -> let f = parse_fault (pop t) in if not c.mfault_set then c.fault <- f
+         | "mfault" -> c.fault <- parse_fault (pop t); c.mfault_set <- true
          | "pre" -> c.pre <- bytes_of_hexspec (pop t)
          | "plain" -> c.plain <- bytes_of_hexspec (pop t)
          | "split" | "prechunks" | "chunks" -> ()
